@@ -235,10 +235,48 @@ def shard_models(arg, acc):
 # ---------------------------------------------------------------------------
 # (c) schema-level extends of base files
 
+def schema_extends_chain(nb, variant, d, acc):
+    """top extends c1 extends c2 (extends c3): key type / datatype set only at one level of the chain."""
+    where = {"chain-root": nb, "chain-mid": 1, "chain-none": 0}[variant]
+    all_types, all_items = [], []
+    for i in range(nb, 0, -1):
+        t = M.SType("ct%d" % i, (M.Key("ck", default="c%d" % i),))
+        its = (M.Key("chainkey%d" % i, default="v%d" % i), M.Sect("*", "ct%d" % i, attribute="cs%d" % i, multi=True))
+        S = M.Schema(types=(t,), items=its, keytype="identifier" if i == where else None,
+                     datatype=WRAP if i == where else None,
+                     extends=("chain%d.xml" % (i + 1),) if i < nb else ())
+        with open(os.path.join(d, "chain%d.xml" % i), "w") as f:
+            f.write(M.render(S))
+        all_types.append(t)
+        all_items += list(its)
+    own_items = (M.Key("Own", default="o"), M.Key("own2", default="p"))
+    composed = M.Schema(items=own_items, extends=("chain1.xml",))
+    merged = M.Schema(types=tuple(all_types), items=tuple(all_items) + own_items,
+                      keytype="identifier" if where else None, datatype=WRAP if where else None)
+    path = os.path.join(d, "top.xml")
+    with open(path, "w") as f:
+        f.write(M.render(composed))
+
+    def loader():
+        import ZConfig
+        try:
+            return ZConfig.loadSchema(path), None
+        except ZConfig.SchemaError as e:
+            return None, "SchemaError: %s" % str(e)[:100]
+        except Exception as e:
+            return None, core.exc_desc(e)
+    mid = {"feature": "schema-extends", "chain_depth": nb, "types_set_at": variant}
+    compare(M.render(composed), X.expand(merged), acc, mid, 3, "schema-extends", composed_loader=loader,
+            top_unordered=True)
+
+
 def shard_schema_extends(arg, acc):
     nb, ktvariant, tier = arg
     d = tempfile.mkdtemp(prefix="vz-c11-", dir="/dev/shm" if os.path.isdir("/dev/shm") else None)
     try:
+        if ktvariant.startswith("chain"):
+            schema_extends_chain(nb, ktvariant, d, acc)
+            return acc
         kts = {"none": [None] * 3, "same": ["identifier"] * 3, "conflict": ["identifier", None, "basic-key"],
                "conflict-explicit": ["identifier", None, "basic-key"], "own-only": [None] * 3}[ktvariant]
         own_kt = {"conflict-explicit": "basic-key", "own-only": "identifier"}.get(ktvariant)
@@ -387,7 +425,7 @@ def run(tier):
              "every subset of links on fixed item combinations; wildcard defaults that collide only under a derived key "
              "type), %d prefix schemas (schema prefix x section-type prefix, relative and absolute, x every relative / "
              "absolute spelling of a section datatype, a key datatype, a key type and a schema-level key datatype), "
-             "schema-level extends of 1..3 base files x 5 key-type situations, %d component import graphs (3 packages: "
+             "schema-level extends of 1..3 base files x 5 key-type situations and extends chains of depth 2..3 with key type / datatype set at one level, %d component import graphs (3 packages: "
              "who imports whom x every import list of length 1..3 incl. repeats): each composed schema and its "
              "expansion are loaded and the whole breadth-first search (C01 engine, depth 3; 2 for imports in quick) of "
              "the expanded schema is replayed on both.  states = schemas + BFS states, transitions = texts.  "
@@ -403,7 +441,8 @@ def run(tier):
         shards += [(kind, lo, lo + step, tier) for lo in range(0, n, step)]
     core.pmap(shard_models, shards, run.acc, shard_budget=3000.0)
     core.pmap(shard_schema_extends, [(nb, v, tier) for nb in (1, 2, 3)
-                                     for v in ("none", "same", "conflict", "conflict-explicit", "own-only")], run.acc)
+                                     for v in ("none", "same", "conflict", "conflict-explicit", "own-only")] +
+              [(nb, v, tier) for nb in (2, 3) for v in ("chain-root", "chain-mid", "chain-none")], run.acc)
     step = max(1, (nim + 31) // 32)
     core.pmap(shard_imports, [(lo, lo + step, tier) for lo in range(0, nim, step)], run.acc)
     a = run.acc
